@@ -63,6 +63,12 @@ pub fn run() {
     let clean = !chance("cfg.faulty", 0.75);
 
     exec::block_on(async move {
+        // a share of the runs drives the sources through the REAL ntpd SourceTask (hook H15)
+        if chance("cfg.glue", 0.15) {
+            probe("real-source-task-mode");
+            crate::glue::run(focus, clean).await;
+            return;
+        }
         // ---- topology ---------------------------------------------------------
         let n_nodes = 1 + weighted("cfg.nodes", &[5, 3, 2]);
         let n_srv = 1 + weighted("cfg.servers", &[3, 4, 2, 1]);
